@@ -8,6 +8,12 @@ Workload: (dt, target) pairs whose floating quotient lands next to an integer on
 pairs, exact multiples, reciprocal steps, dt == target; lengths odd/even, divisible or not by the decimation factor;
 even in {True, False}; array-, object- and consumer-level calls; Fourier matrix even x parity(npts) x parity(factor) x
 divisible decimation.
+Round 3 (audit checklist 22-27): scripted scenarios (plain data, replayable) on AccSignal objects copied by copy.copy /
+copy.deepcopy / pickle in every cache state, with assignments through the public attribute names and operations that raise in
+between - every monitored call there is also compared with the same call on a fresh object built from the object's own
+values; f(A); f(B); f(A) with B of another shape, another factor but the same output length, or the same record with other
+options; targets at the end of the admissible range (half the duration), 3..6-sample records, factors up to 2000; silent
+(all-zero) and strictly one-signed records in every container; rejected / out-of-domain calls judged for purity only.
 """
 import copy
 
@@ -43,7 +49,22 @@ RULE = ('cases = (values, dt, target_dt, even, entry point) calls of the real fu
         'records from fas2signal) analysed in turn; consumer gen_response_spectrum with the step taken from T_min/20 and '
         'from dt/min_dt_ratio, period lists of 1..65 entries with and without a leading 0. Fourier cases: random '
         'harmonics up to (and including) the highest index below both Nyquist frequencies, and, when refining an '
-        'even-length record, energy exactly at the old Nyquist frequency. distinct = digest(values, dt, target, even, entry point); non-trivial = non-constant record.')
+        'even-length record, energy exactly at the old Nyquist frequency. Round 3: targets at, a few ulps below and within 1e-3 of '
+        'half the duration (the end of the admissible range), records of 3..6 samples with targets at / just below dt and '
+        'refined by 1..60, decimation factors 100..1500 and refinement factors 300..2000; silent (all-zero, also -0.0) and '
+        'strictly one-signed records (interpolation: as arrays of every dtype, lists, tuples, integer lists; Fourier: silent and '
+        'mean-dominated band-limited signals as arrays, lists and tuples); f(A); f(B); f(A) with B of the same shape, another '
+        'shape, another factor with the same output length (n*k == n2*k2), or the same record with another target / even; '
+        'scripted scenarios: one AccSignal in cache state {cold, Fourier spectrum, smoothed spectrum, velocity/displacement, '
+        'peaks, response spectrum, Stockwell memo, already resampled, all} copied by {copy.copy, copy.deepcopy, pickle round '
+        'trip (protocol 2 and highest)} and then, on the copy and on the original in both orders: reads, reset_values to a '
+        'record of the same / another length, add_constant, assignment to .values (list / tuple / ndarray of the same or '
+        'another length, 1, 2, 3 entries), to .dt and .npts, add_series of a wrong length, add_signal of another step / length / '
+        'type, a non-finite record in between, calls with unusable targets (0, negative, None, text, nan, inf, list), a '
+        'response-spectrum call that raises - each followed by interp_to_approx_dt and resample_to_approx_dt in three '
+        'argument styles; after copy.copy one side is rebound first and calls are made only once the buffers are separate; '
+        'array- and object-level calls outside the quantifier (non-finite samples, 0..2 samples, unusable target or step). '
+        'distinct = digest(values, dt, target, even, entry point); non-trivial = non-constant record.')
 ASSUMPTIONS = ['finite real input, dt > 0, target_dt > 0, duration (n-1)*dt >= 2*max(dt, target_dt); other calls are '
                'counted, not judged',
                'every call is judged against a copy of its array argument (the signal object\'s values and dt) taken at '
@@ -71,7 +92,17 @@ ASSUMPTIONS = ['finite real input, dt > 0, target_dt > 0, duration (n-1)*dt >= 2
                '64*eps32*max|x| with harmonics below 2*eps32*max|x| counted as absent ("exactly" = to rounding of the '
                'arithmetic the samples are given in; the reference is built from the float32-rounded samples in float64)',
                '"keeps the record" includes: the array argument / the signal object is bit-for-bit unchanged by the call, '
-               'a returned result is not altered by a later call, and a repeated call returns the identical result']
+               'a returned result is not altered by a later call, and a repeated call returns the identical result',
+               'calls outside the quantifier (non-finite samples, records shorter than two target steps, unusable target or '
+               'step) and calls that raise are judged for ONE thing only: the argument equals its entry snapshot afterwards '
+               '(audit checklist 19 / 24); no returned value is judged there',
+               '"for every record ... object-level variants": the record of an object-level call is the object\'s current '
+               '(values, dt), however the object came about (constructor, copy, deepcopy, pickle, after assignments that the '
+               'class ignores or refuses, after operations that raised); the result is a function of that record and the '
+               'options only, so it equals (values ==, NaN == NaN, same step, same type) the result of the same call on a '
+               'fresh AccSignal built from a copy of those values - judged also outside the quantifier, where both may raise',
+               'the all-zero record is a record: its range is {0}, every clause applies (band-limited tolerance 1e-10*max|x| = 0: '
+               'the output must be exactly zero)']
 MIN_EVALS = {
     'quick': {'interp.step<=target': 12000, 'interp.ratio-integer': 12000, 'interp.retained-samples': 7000,
               'interp.subsequence': 5500, 'interp.range': 12000, 'interp.duration<2steps': 12000,
@@ -101,6 +132,8 @@ CTX = None
 K6 = 'C14/fourier-decimation-nondivisible'
 K6_ACCEPT_PARITY_TRIM = True   # also accept the FFT grid of len(y)+1 points when even=True (see ASSUMPTIONS / k6_explains)
 VIA = {'consumer': False}
+SCEN = {'spec': None}
+OOD_PURITY = 'purity.rejected-or-out-of-domain-call-args-unchanged'
 MAX_ORACLE_N = 300000        # longer Fourier inputs are counted, not judged
 ORACLE_BUDGET = 4e7          # harmonics x output samples the analytic reference may cost per call
 
@@ -146,6 +179,9 @@ def _wit(fn, snap, dt, target, even, **kw):
          'target_dt': target, 'even': even}
     if snap['kind'] in ('list', 'tuple'):
         d['py_values'] = list(c)
+    if SCEN['spec'] is not None:      # a call made inside a scripted scenario: replay re-runs the whole script
+        d['scenario'] = 'protocol'
+        d['spec'] = SCEN['spec']
     d.update(kw)
     return d
 
@@ -395,23 +431,24 @@ def _pre_obj(args, kwargs):
         return None
 
 
-def _purity_array(ctx, prefix, fn, values, pre, dt, target, even):
-    ctx.check(_unchanged(values, pre['snap']), prefix + 'args-unchanged',
+def _purity_array(ctx, prefix, fn, values, pre, dt, target, even, clause=None):
+    ctx.check(_unchanged(values, pre['snap']), clause or (prefix + 'args-unchanged'),
               lambda: _wit(fn, pre['snap'], dt, target, even, values_after=np.asarray(values)),
               '%s(dt=%r, target_dt=%r, even=%r) modified its array argument (%s %s)'
               % (fn, dt, target, even, pre['snap']['kind'], pre['snap']['form']))
 
 
-def _purity_obj(ctx, prefix, fn, asig, pre, target, even):
+def _purity_obj(ctx, prefix, fn, asig, pre, target, even, clause=None):
     """The signal object keeps its values, its step and every other attribute (compared on vars(): nothing is computed)."""
     changed = None
     try:
-        same = _unchanged(asig.values, pre['snap']) and asig.dt == pre['dt'] and type(asig.dt) is type(pre['dt'])
+        d0, d1 = pre['dt'], asig.dt
+        same = _unchanged(asig.values, pre['snap']) and type(d1) is type(d0) and (d1 is d0 or d1 == d0 or (d1 != d1 and d0 != d0))
         changed = _state_diff(pre['state'], _obj_state(asig))
         same = same and not changed
     except Exception:
         same = False
-    ctx.check(same, prefix + 'args-unchanged',
+    ctx.check(same, clause or (prefix + 'args-unchanged'),
               lambda: _wit(fn, pre['snap'], pre['dt'], target, even, values_after=np.asarray(asig.values), dt_after=asig.dt,
                            changed_attributes=changed),
               '%s(target_dt=%r, even=%r) modified the signal object it was given (attributes %s)' % (fn, target, even, changed))
@@ -440,6 +477,8 @@ def _post_interp_array(args, kwargs, result, pre):
     if check_interp(CTX, 'interp.', 'interp_array_to_approx_dt', pre['snap'], dt, target, even, y, new_dt):
         _purity_array(CTX, 'interp.', 'interp_array_to_approx_dt', values, pre, dt, target, even)
         _owns(CTX, 'interp.', 'interp_array_to_approx_dt', y, values, pre['snap'], dt, target, even)
+    else:       # outside the quantifier no value is judged, but the caller's array is still the caller's
+        _purity_array(CTX, 'interp.', 'interp_array_to_approx_dt', values, pre, dt, target, even, clause=OOD_PURITY)
 
 
 def _post_interp_obj(args, kwargs, result, pre):
@@ -474,6 +513,8 @@ def _post_interp_obj(args, kwargs, result, pre):
                       '%s(n=%d, dt=%r, target_dt=%r, even=%r) -> (len %d, dt %r) but interp_array_to_approx_dt on the same '
                       'values gives (len %d, dt %r)' % (fn, len(pre['snap']['copy']), pre['dt'], target, even, len(y), new_dt,
                                                        len(ya), dta))
+    else:
+        _purity_obj(CTX, 'interp_obj.', 'interp_to_approx_dt', asig, pre, target, even, clause=OOD_PURITY)
 
 
 def _post_resample(args, kwargs, result, pre):
@@ -498,10 +539,23 @@ def _post_resample(args, kwargs, result, pre):
                 CTX.observe('fourier.step differs from the interpolation variant (no verdict)')
         except Exception:
             pass
+    else:
+        _purity_obj(CTX, 'fourier.', 'resample_to_approx_dt', asig, pre, target, even, clause=OOD_PURITY)
 
 
 def _exc_hook(prefix, fn, objlevel):
     def hook(args, kwargs, exc, pre):
+        # a call that raises (in or out of the quantifier) leaves its argument as it found it
+        if pre is not None:
+            try:
+                if objlevel:
+                    asig, target, even = _parse(args, kwargs, _OBJ, _DEF)
+                    _purity_obj(CTX, prefix, fn, asig, pre, target, even, clause=OOD_PURITY)
+                else:
+                    values, dt, target, even = _parse(args, kwargs, _ARR, _DEF)
+                    _purity_array(CTX, prefix, fn, values, pre, dt, target, even, clause=OOD_PURITY)
+            except Exception:
+                CTX.observe(prefix + 'raising call with unparsable arguments (purity not judged)')
         try:
             if objlevel:
                 asig, target, even = _parse(args, kwargs, _OBJ, _DEF)
@@ -699,13 +753,16 @@ def lengths(rng, dt, target, count, span=200):
 
 REC_CLS = ['noise', 'walk', 'quake', 'intnoise', 'sine', 'chirp', 'plateau', 'impulse', 'alt', 'zeropad', 'step', 'const',
            'ramp', 'plateau-ends', 'extreme-first', 'extreme-last', 'sign-change-at-end', 'spike-dynamic-range',
-           'one-sided', 'tail-heavy', 'single-changed-sample']
-REC_P = np.array([.14, .08, .08, .07, .04, .04, .05, .04, .04, .04, .03, .02, .06, .04, .04, .04, .04, .05, .04, .03, .04])
+           'one-sided', 'tail-heavy', 'single-changed-sample', 'silent']
+REC_P = np.array([.14, .08, .08, .07, .04, .04, .05, .04, .04, .04, .03, .02, .06, .04, .04, .04, .04, .05, .05, .03, .04,
+                  .025])
 REC_P = REC_P / REC_P.sum()
 
 
-def make_record(rng, n, scales=True):
-    cls = REC_CLS[int(rng.choice(len(REC_CLS), p=REC_P))]
+def make_record(rng, n, scales=True, rec=None):
+    cls = rec if rec is not None else REC_CLS[int(rng.choice(len(REC_CLS), p=REC_P))]
+    if cls == 'silent':     # an all-zero record is a valid record (its range is the single value 0)
+        return (np.zeros(n) if rng.random() < 0.85 else -np.zeros(n)), cls
     if cls == 'ramp':       # strictly increasing: every sample distinct, position errors cannot hide
         x = np.arange(n, dtype=float) * (1.0 if rng.random() < 0.5 else float(rng.uniform(0.1, 3.0)))
     elif cls == 'plateau-ends':
@@ -866,8 +923,8 @@ def make_sig(eqsig, ctx, vals, dt):
         return None
 
 
-def drive_interp(eqsig, ctx, rng, dt, target, fam, n, even, c, form=None):
-    x, rcls = make_record(rng, n)
+def drive_interp(eqsig, ctx, rng, dt, target, fam, n, even, c, form=None, rec=None):
+    x, rcls = make_record(rng, n, rec=rec)
     mode = 'array'
     if c % 4 == 3:
         mode = 'object'
@@ -877,6 +934,12 @@ def drive_interp(eqsig, ctx, rng, dt, target, fam, n, even, c, form=None):
     special = ('/extreme-scale' in rcls) or ('/special' in rcls)
     if form is None and rng.random() < 0.3:
         form = FORMS[int(rng.integers(len(FORMS)))]
+    if form is None and rcls.split('*')[0].split('+')[0] in ('silent', 'one-sided') and rng.random() < 0.5:
+        form = ['list', 'tuple', 'list-int', 'tuple'][int(rng.integers(4))]     # Python containers of silent / one-signed records
+    if rcls.startswith(('silent', 'one-sided')):
+        ctx.observe('workload record %s as %s' % (rcls.split('*')[0].split('+')[0].split('/')[0],
+                                                  'python container' if form in ('list', 'tuple', 'list-int', 'list-mixed')
+                                                  else 'array'))
     if special and form in ('f32', 'list-int', 'list-mixed') + tuple(INT_FORMS):
         form = ['list', 'tuple', 'view-stride2', 'readonly'][int(rng.integers(4))]   # no float32 / int at these scales
     if special:
@@ -940,12 +1003,16 @@ def synth_bandlimited(rng, N, Kmax, mode, scales=True):
     a = np.zeros(Kmax + 1)
     b = np.zeros(Kmax + 1)
     a[0] = rng.normal() if rng.random() < 0.7 else 0.0
-    if mode == 'const' or Kmax < 1:
+    if mode == 'silent':
+        a[0] = 0.0
+        ks = []
+        scales = False
+    elif mode == 'const' or Kmax < 1:
         a[0] = float(rng.choice([-2.0, 0.5, 3.0]))
         ks = []
     elif mode == 'top-only':
         ks = [Kmax]
-    elif mode == 'top':
+    elif mode in ('top', 'one-signed'):
         ks = sorted(set([Kmax] + [int(v) for v in rng.integers(1, Kmax + 1, size=int(rng.integers(1, 10)))]))
     else:
         hi = max(1, Kmax // 2)
@@ -974,6 +1041,9 @@ def synth_bandlimited(rng, N, Kmax, mode, scales=True):
             for k in ks:
                 a[k] *= sc_
                 b[k] *= sc_
+    if mode == 'one-signed':      # the mean dominates the sum of all harmonic amplitudes: no zero, no sign change anywhere
+        a[0] = (float(np.sum(np.abs(a[1:]) + np.abs(b[1:]))) or 1.0) * float(rng.uniform(1.05, 3.0)) \
+            * (1.0 if rng.random() < 0.5 else -1.0)
     a *= amp
     b *= amp
     K = ks[-1] if ks else 0
@@ -1016,8 +1086,10 @@ def synth_for(eqsig, rng, N, dt, target, even, kmode=None, scales=True, kcap=Non
     if kcap is not None:            # very long records: keep k*t/P exact to ~1e-13 in the analytic reference
         Kmax = min(Kmax, kcap)
     if kmode is None:
-        kmode = ['top', 'low', 'top-only', 'const'][int(rng.choice(4, p=[.5, .3, .17, .03]))]
+        kmode = ['top', 'low', 'top-only', 'const', 'silent', 'one-signed'][int(rng.choice(6, p=[.46, .27, .15, .03, .025, .065]))]
     x, a, b, K = synth_bandlimited(rng, N, max(Kmax, 0), kmode, scales)
+    if kmode == 'one-signed' and not (np.all(x > 0) or np.all(x < 0)):
+        raise AssertionError('C14 workload self-check failed: one-signed record changes sign (N=%d)' % N)
     # oracle self-check (a failure is a harness defect -> shard crash -> INCONCLUSIVE, never a verdict on eqsig)
     A, B, nyq = O.harmonics(x)
     sc = float(np.max(np.abs(x))) or 1.0
@@ -1036,7 +1108,14 @@ def drive_fourier(eqsig, ctx, rng, dt, target, fam, N, even, kmode=None, kcap=No
     m_ = float(np.max(np.abs(x)))
     if not (1e-30 < m_ < 1e30) and r >= 0.06:          # extreme scales: float64 / python containers / views only
         r = 1.0
-    if r < 0.06:
+    if kmode in ('silent', 'one-signed'):
+        ctx.observe('fourier.workload %s record' % kmode)
+        if kcap is None and rng.random() < 0.5:        # Python list / tuple forms of silent and one-signed records
+            r = 0.0
+    if r == 0.0:
+        form = ['list', 'tuple'][int(rng.integers(2))]
+        vals = make_form(rng, x, form)
+    elif r < 0.06:
         form = ['list', 'tuple', 'view-stride2', 'view-reversed', 'readonly'][int(rng.integers(5))]
         vals = make_form(rng, x, form)                   # same float64 numbers: still band-limited
     elif r < 0.12:
@@ -1205,8 +1284,11 @@ def drive_history(eqsig, ctx, rng):
 
 
 def drive_back_to_back(eqsig, ctx, rng, pairs):
-    """Two different inputs of the same shape processed back to back while the first result is still held; the first
-    result is compared with its copy AFTER the second call, and a repeat of the first call must return identical bits."""
+    """f(A); f(B); f(A): the first result, still held, is compared with its copy AFTER the second call, and the repeat of the
+    first call must return identical bits. B is another draw of the same recipe with the same shape, with another shape,
+    with another factor but the SAME output length (a grid memoised on the output length alone), or the same record with
+    other options (target / even)."""
+    variant = ['same-shape', 'other-shape', 'same-output-length', 'other-options'][int(rng.choice(4, p=[.35, .25, .2, .2]))]
     if rng.random() < 0.4:
         dt, target, fam = pairs[int(rng.integers(len(pairs)))]
     else:
@@ -1215,53 +1297,418 @@ def drive_back_to_back(eqsig, ctx, rng, pairs):
         return
     n = lengths(rng, dt, target, 1, span=150)[0]
     even = bool(rng.random() < 0.5)
+    dt2, target2, n2, even2 = dt, target, n, even
+    if variant == 'other-shape':
+        n2 = lengths(rng, dt, target, 1, span=150)[0]
+        if n2 == n:
+            n2 = n + 1 + int(rng.integers(0, 40))
+    elif variant == 'same-output-length':
+        k, k2 = [int(v) for v in rng.choice(np.arange(1, 8), size=2, replace=False)]
+        c = int(rng.integers(3, 60))
+        if rng.random() < 0.5:          # refining by k and by k2: n*k == n2*k2
+            target, target2, n, n2 = dt / k, dt / k2, k2 * c, k * c
+        else:                           # decimating by k and by k2: n/k == n2/k2
+            target, target2, n, n2 = dt * k, dt * k2, k * c, k2 * c
+        if not (O.in_domain(n, dt, target) and O.in_domain(n2, dt2, target2)):
+            ctx.observe('driver: same-output-length pair outside the quantifier (skipped)')
+            return
+    elif variant == 'other-options':
+        if rng.random() < 0.4:
+            even2 = not even
+        else:
+            target2 = _targets_for(rng, dt, n)
+            even2 = bool(rng.random() < 0.5)
     kind = ['array', 'object', 'fourier'][int(rng.integers(3))]
     if kind == 'fourier':
-        if n * max(1.0, dt / target) > 40000:
+        if n * max(1.0, dt / target) > 40000 or n2 * max(1.0, dt2 / target2) > 40000:
             return
         x1 = synth_for(eqsig, rng, n, dt, target, even)[0]
-        x2 = synth_for(eqsig, rng, n, dt, target, even)[0]
+        x2 = x1.copy() if variant == 'other-options' else synth_for(eqsig, rng, n2, dt2, target2, even2)[0]
     else:
         x1 = make_record(rng, n)[0]
-        x2 = make_record(rng, n)[0]
+        x2 = x1.copy() if variant == 'other-options' else make_record(rng, n2)[0]
 
-    def run(x):
+    def run(x, dt_, target_, even_):
         if kind == 'array':
-            r = _swallow(eqsig.interp_array_to_approx_dt, x, dt, target_dt=target, even=even)
+            r = _swallow(eqsig.interp_array_to_approx_dt, x, dt_, target_dt=target_, even=even_)
             return None if r is None else (r[0], r[1])
-        s = make_sig(eqsig, ctx, x, dt)
+        s = make_sig(eqsig, ctx, x, dt_)
         r = None if s is None else _swallow(eqsig.interp_to_approx_dt if kind == 'object' else eqsig.resample_to_approx_dt,
-                                            s, target, even=even)
+                                            s, target_, even=even_)
         return None if r is None else (r.values, r.dt)
-    ctx.case(core.digest(x1, x2, dt, target, even, kind), nontrivial=bool(np.ptp(x1) > 0 or np.ptp(x2) > 0),
-             cls='back-to-back/%s/%s' % (kind, fam),
-             sample={'fn': 'back-to-back:' + kind, 'n': n, 'dt': dt, 'target_dt': target, 'even': even, 'head': x1[:6]})
-    r1 = run(x1)
+    ctx.case(core.digest(x1, x2, dt, target, even, target2, even2, kind), nontrivial=bool(np.ptp(x1) > 0 or np.ptp(x2) > 0),
+             cls='back-to-back/%s/%s/%s' % (variant, kind, fam),
+             sample={'fn': 'back-to-back:' + kind, 'variant': variant, 'n': n, 'dt': dt, 'target_dt': target, 'even': even,
+                     'n2': n2, 'target_dt2': target2, 'even2': even2, 'head': x1[:6]})
+    r1 = run(x1, dt, target, even)
     if r1 is None:
         return
     try:
         keep = (np.array(r1[0], copy=True), r1[1])
     except Exception:
         return
-    r2 = run(x2)
+    r2 = run(x2, dt2, target2, even2)
     snap1 = _snapshot(x1)
     w = lambda **kw: dict(_wit({'array': 'interp_array_to_approx_dt', 'object': 'interp_to_approx_dt',
                                 'fourier': 'resample_to_approx_dt'}[kind], snap1, dt, target, even), second_values=x2,
+                          second_dt=dt2, second_target_dt=target2, second_even=even2, variant=variant,
                           scenario='back-to-back', **kw)
+    sfx = '' if variant == 'same-shape' else '/varied-second-call'
+    desc = '%s, second call %s (n=%d dt=%r target_dt=%r even=%r; then n=%d target_dt=%r even=%r)' % (
+        kind, variant, n, dt, target, even, n2, target2, even2)
     intact = isinstance(r1[0], np.ndarray) and r1[0].shape == keep[0].shape and r1[0].tobytes() == keep[0].tobytes() \
         and r1[1] == keep[1]
     if intact and r2 is not None and isinstance(r2[0], np.ndarray):
         intact = not np.shares_memory(r1[0], r2[0])
-    ctx.check(intact, 'state.first-result-intact-after-second-call', w,
-              '%s: the result of the first call changed (or shares memory with the second result) after a second call on a '
-              'different input of the same shape (n=%d dt=%r target_dt=%r even=%r)' % (kind, n, dt, target, even))
-    r3 = run(x1)
+    ctx.check(intact, 'state.first-result-intact-after-second-call' + sfx, w,
+              'the result of the first call changed (or shares memory with the second result) after a second call: ' + desc)
+    r3 = run(x1, dt, target, even)
     if r3 is not None:
         same = isinstance(r3[0], np.ndarray) and r3[0].shape == keep[0].shape and r3[0].tobytes() == keep[0].tobytes() \
             and r3[1] == keep[1]
-        ctx.check(same, 'state.repeat-call-identical', w,
-                  '%s: repeating the first call after another input gave a different result (n=%d dt=%r target_dt=%r '
-                  'even=%r)' % (kind, n, dt, target, even))
+        ctx.check(same, 'state.repeat-call-identical' + sfx, w,
+                  'repeating the first call after another call gave a different result: ' + desc)
+
+
+# ------------------------------------------------------------------ ends of the admissible range of the target step
+def edge_case(rng):
+    """(dt, target, n, family): the target within 1e-3 (down to a few ulps, and exactly) of the end of its admissible range
+    duration/2; the shortest records of all (3..6 samples); the largest factors the record length admits."""
+    dt = gen.dt(rng)
+    if rng.random() < 0.2:
+        dt = dt * 10.0 ** rng.uniform(-6, 3)
+    r = int(rng.integers(5))
+    dsel = int(rng.integers(4))
+    delta = [0.0, 10.0 ** (-int(rng.integers(3, 16))), float(rng.uniform(0.0, 1e-3)), 0.0][dsel]
+    if r == 0:                                          # decimation: target just below / at half the duration
+        n = int(rng.integers(5, 300))
+        half = (n - 1) * dt / 2.0
+        target = _step_ulps(half, -int(rng.integers(1, 4))) if dsel == 3 else half * (1.0 - delta)
+        fam = 'edge/target-at-half-duration'
+    elif r == 1:                                        # the three-sample record: duration == 2*dt, target at / just below dt
+        n = 3 if rng.random() < 0.7 else 4
+        target = _step_ulps(dt, -int(rng.integers(1, 4))) if dsel == 3 else dt * (1.0 - delta)
+        fam = 'edge/three-samples'
+    elif r == 2:                                        # shortest records, refined by k (quotient on either side of k)
+        n = int(rng.integers(3, 7))
+        k = int(rng.integers(1, 61))
+        sgn = 1.0 if rng.random() < 0.5 else -1.0
+        target = dt / (k * (1.0 + sgn * delta))
+        if target > dt:
+            target = dt
+        fam = 'edge/shortest-refined'
+    elif r == 3:                                        # the largest decimation factor a longer record admits
+        m = int(rng.integers(100, 1500))
+        n = 2 * m + 1 + int(rng.integers(0, 4))
+        target = dt * m if rng.random() < 0.5 else (n - 1) * dt / 2.0 * (1.0 - delta)
+        fam = 'edge/largest-decimation'
+    else:                                               # refinement factors 300..2000 on a short record
+        n = int(rng.integers(3, 12))
+        k = int(rng.integers(300, 2000))
+        target = dt / k if rng.random() < 0.5 else dt / (k * (1.0 + (1.0 if rng.random() < 0.5 else -1.0) * max(delta, 1e-13)))
+        fam = 'edge/largest-refinement'
+    return float(dt), float(target), int(n), fam
+
+
+# ------------------------------------------------------------------ calls the library rejects or that lie outside the quantifier
+BAD_TARGETS = [0.0, -0.01, None, 'a', float('nan'), float('inf'), [0.01]]
+
+
+def drive_rejected(eqsig, ctx, rng):
+    """Array-level calls outside the quantifier (non-finite samples, records shorter than two target steps, unusable
+    targets): no value is judged; the monitors compare the argument with its entry snapshot after the return or the raise."""
+    n = int(rng.integers(8, 120))
+    x = make_record(rng, n, scales=False)[0]
+    dt = gen.dt(rng)
+    target = _targets_for(rng, dt, n)
+    r = int(rng.integers(4))
+    if r == 0:        # non-finite samples (accepted silently by the library)
+        for j in rng.integers(0, n, size=int(rng.integers(1, 4))):
+            x[int(j)] = [np.nan, np.inf, -np.inf][int(rng.integers(3))]
+        kind = 'non-finite'
+    elif r == 1:      # shorter than two target steps
+        x = x[:int(rng.integers(0, 3))]
+        kind = 'too-short'
+    elif r == 2:
+        target = BAD_TARGETS[int(rng.integers(len(BAD_TARGETS)))]
+        kind = 'unusable-target'
+    else:             # unusable time step
+        dt = [0.0, -0.01, float('nan')][int(rng.integers(3))]
+        kind = 'unusable-dt'
+    form = [None, 'list', 'tuple', 'readonly', 'view-stride2', 'f32'][int(rng.integers(6))]
+    vals = x if (form is None or len(x) == 0) else make_form(rng, x, form)
+    ctx.observe('workload rejected/out-of-domain: %s' % kind)
+    with np.errstate(all='ignore'):
+        if rng.random() < 0.6:
+            _swallow(eqsig.interp_array_to_approx_dt, vals, dt, target_dt=target, even=bool(rng.random() < 0.5))
+        else:
+            s = None
+            try:
+                with attach.paused():
+                    s = eqsig.AccSignal(vals, dt)
+            except Exception:
+                s = None
+            if s is not None:
+                f = eqsig.interp_to_approx_dt if rng.random() < 0.5 else eqsig.resample_to_approx_dt
+                _swallow(f, s, target, even=bool(rng.random() < 0.5))
+
+
+# ------------------------------------------------------------------ object protocols, assignments, operations that raise
+WARM = ['cold', 'fas', 'smooth', 'veldisp', 'peaks', 'response', 'stockwell', 'resampled', 'all']
+PROTOS = ['copy', 'deepcopy', 'pickle']
+ORDERS = ['copy-first', 'orig-first']
+CALL_FNS = ['interp_to_approx_dt', 'resample_to_approx_dt']
+P_TWIN = 'protocol.copied-object-result==fresh-twin'
+P_ASSIGN = 'protocol.after-assignment-result==fresh-twin'
+P_RAISE = 'protocol.after-raise-result==fresh-twin'
+
+
+def _bandlimited_record(rng, n):
+    return synth_bandlimited(rng, n, max(1, n // 12), 'top', scales=False)[0]
+
+
+def protocol_spec(rng, warm, proto, order):
+    """A scripted scenario as plain data (complete inputs: replay re-runs it): one AccSignal in a given cache state, copied
+    by copy.copy / copy.deepcopy / a pickle round trip; then, on the copy and on the original in the given order, reads,
+    rebinding mutators, assignments through the public attribute names, operations that raise, and the monitored calls."""
+    dt = [0.01, 0.005, 0.02, 1.0 / 93, 0.004, 1.0 / 256, 1.0 / 3, 1.0 / 120][int(rng.integers(8))] if rng.random() < 0.7 \
+        else gen.dt(rng)
+    N = int(rng.integers(48, 200))
+    steps = []
+    spec = {'values': _bandlimited_record(rng, N), 'dt': float(dt), 'warm': warm, 'proto': proto, 'order': order,
+            'steps': steps}
+    n = {'orig': N, 'copy': N}
+    seq = ['copy', 'orig'] if order == 'copy-first' else ['orig', 'copy']
+
+    def calls(who):
+        for i in rng.permutation(2):
+            steps.append({'who': who, 'op': 'call', 'fn': CALL_FNS[int(i)], 'target': _targets_for(rng, dt, n[who]),
+                          'even': bool(rng.random() < 0.5), 'style': int(rng.integers(3))})
+
+    def reset(who):
+        n_new = [n[who], max(24, n[who] // 2 + int(rng.integers(0, 5))), n[who] + int(rng.integers(1, 60))][int(rng.integers(3))]
+        xn = _bandlimited_record(rng, n_new) if rng.random() < 0.8 else make_record(rng, n_new, scales=False)[0]
+        steps.append({'who': who, 'op': 'reset', 'values': xn})
+        n[who] = n_new
+    ops = ['read', 'reset', 'add_constant', 'assign-values', 'assign-dt', 'assign-npts', 'raise-add_series',
+           'raise-add_signal', 'nonfinite', 'bad-target', 'raise-spectrum']
+    ops_p = np.array([.12, .14, .06, .2, .06, .04, .1, .08, .07, .09, .04])
+    for j, who in enumerate(seq):
+        for i in range(int(rng.integers(1, 4))):
+            op = ops[int(rng.choice(len(ops), p=ops_p / ops_p.sum()))]
+            if proto == 'copy' and j == 0 and i == 0:
+                op = 'reset'                 # a shallow copy shares the buffer: rebind one side first
+            if op == 'read':
+                steps.append({'who': who, 'op': 'read', 'kind': WARM[1 + int(rng.integers(len(WARM) - 3))]})
+            elif op == 'reset':
+                reset(who)
+            elif op == 'add_constant':
+                steps.append({'who': who, 'op': 'add_constant', 'c': float(rng.normal())})
+            elif op == 'assign-values':
+                ln = [n[who], n[who] + 7, max(24, n[who] - 5), 1, 2, 3][int(rng.choice(6, p=[.3, .25, .25, .07, .07, .06]))]
+                steps.append({'who': who, 'op': 'assign-values', 'container': ['list', 'tuple', 'ndarray'][int(rng.integers(3))],
+                              'values': _bandlimited_record(rng, ln) if ln >= 24 else rng.normal(size=ln)})
+            elif op == 'assign-dt':
+                steps.append({'who': who, 'op': 'assign-dt', 'value': float([dt * 2, dt / 2, 0.01, dt][int(rng.integers(4))])})
+            elif op == 'assign-npts':
+                steps.append({'who': who, 'op': 'assign-npts', 'value': int(n[who] // 2)})
+            elif op == 'raise-add_series':
+                steps.append({'who': who, 'op': 'raise-add_series', 'len': int(n[who] + [3, -1, -n[who] + 1][int(rng.integers(3))]),
+                              'container': ['list', 'ndarray'][int(rng.integers(2))]})
+            elif op == 'raise-add_signal':
+                steps.append({'who': who, 'op': 'raise-add_signal',
+                              'mode': ['other-dt', 'not-a-signal', 'other-length'][int(rng.integers(3))]})
+            elif op == 'nonfinite':
+                xn = _bandlimited_record(rng, n[who])
+                xn[int(rng.integers(n[who]))] = [np.nan, np.inf, -np.inf][int(rng.integers(3))]
+                steps.append({'who': who, 'op': 'nonfinite', 'values': xn})
+                calls(who)                   # outside the quantifier: only the purity of the call is judged
+                reset(who)
+            elif op == 'bad-target':
+                steps.append({'who': who, 'op': 'bad-target', 'fn': CALL_FNS[int(rng.integers(2))],
+                              'target': BAD_TARGETS[int(rng.integers(len(BAD_TARGETS)))], 'even': bool(rng.random() < 0.5)})
+            else:
+                steps.append({'who': who, 'op': 'raise-spectrum', 'mode': ['empty', 'negative-ratio', 'text'][int(rng.integers(3))]})
+        calls(who)
+    calls(seq[0])                            # the first object once more, after everything that happened to the second
+    if rng.random() < 0.5:
+        calls(seq[1])
+    return spec
+
+
+def _warm(eqsig, o, kind):
+    if kind in ('fas', 'all'):
+        _swallow(lambda: o.fa_spectrum)
+    if kind in ('smooth', 'all'):
+        _swallow(lambda: o.smooth_fa_spectrum)
+    if kind in ('veldisp', 'all'):
+        _swallow(lambda: o.velocity)
+        _swallow(lambda: o.displacement)
+    if kind in ('peaks', 'all'):
+        for nm in ('pga', 'pgv', 'pgd'):
+            _swallow(getattr, o, nm)
+    if kind in ('response', 'all'):
+        VIA['consumer'] = True
+        try:
+            _swallow(o.gen_response_spectrum, response_times=np.array([0.2, 0.5, 1.0]))
+            _swallow(lambda: o.s_a)
+        finally:
+            VIA['consumer'] = False
+    if kind in ('stockwell', 'all'):
+        def _sw():
+            o.swtf = eqsig.stockwell.transform(o.values)       # memoised on the object, as eqsig.stockwell.plot_stock does
+        _swallow(_sw)
+    if kind in ('resampled', 'all'):
+        n_, dt_ = len(o.values), float(o.dt)
+        if O.in_domain(n_, dt_, dt_ / 2.0):
+            _swallow(eqsig.interp_to_approx_dt, o, dt_ / 2.0, even=False)
+            _swallow(eqsig.resample_to_approx_dt, o, dt_ / 2.0, even=True)
+
+
+def _same_result(r, rt):
+    if (r is None) != (rt is None):
+        return False
+    if r is None:
+        return True
+    try:
+        a, b = np.asarray(r.values), np.asarray(rt.values)
+        return a.shape == b.shape and a.dtype == b.dtype and bool(np.array_equal(a, b, equal_nan=True)) \
+            and (r.dt == rt.dt or (r.dt != r.dt and rt.dt != rt.dt)) and type(r) is type(rt)
+    except Exception:
+        return False
+
+
+def exec_protocol(eqsig, ctx, spec):
+    """Run one scripted scenario. Every monitored call is judged by the monitors against its entry snapshot, and its result is
+    compared with the same call on a fresh AccSignal built from (a copy of) the object's own current values and step:
+    the result depends on the record, not on how the object came about or on what was tried on it before."""
+    import pickle
+    x0 = np.array(spec['values'], dtype=float)
+    dt0 = spec['dt']
+    orig = make_sig(eqsig, ctx, x0.copy(), dt0)
+    if orig is None:
+        return
+    SCEN['spec'] = spec
+    try:
+        with np.errstate(all='ignore'):
+            _warm(eqsig, orig, spec['warm'])
+            try:
+                if spec['proto'] == 'copy':
+                    cp = copy.copy(orig)
+                elif spec['proto'] == 'deepcopy':
+                    cp = copy.deepcopy(orig)
+                else:
+                    cp = pickle.loads(pickle.dumps(orig, protocol=pickle.HIGHEST_PROTOCOL if len(x0) % 2 else 2))
+            except Exception as e:
+                ctx.observe('protocol: %s of an AccSignal failed (%s; not this property)' % (spec['proto'], type(e).__name__))
+                return
+            objs = {'orig': orig, 'copy': cp}
+            flags = {'orig': set(), 'copy': set()}
+            unshared = spec['proto'] != 'copy'
+            for i, st in enumerate(spec['steps']):
+                o = objs[st['who']]
+                op = st['op']
+                if op == 'call':
+                    if not unshared:
+                        try:
+                            unshared = not np.shares_memory(orig.values, cp.values)
+                        except Exception:
+                            unshared = False
+                        if not unshared:
+                            ctx.observe('protocol: shallow copy still shares its buffer (call skipped)')
+                            continue
+                    _protocol_call(eqsig, ctx, spec, i, st, o, flags[st['who']])
+                elif op == 'read':
+                    _warm(eqsig, o, st['kind'])
+                elif op in ('reset', 'nonfinite'):
+                    _swallow(o.reset_values, np.array(st['values'], dtype=float))
+                    if op == 'nonfinite':
+                        flags[st['who']].add('raise')
+                elif op == 'add_constant':
+                    _swallow(o.add_constant, st['c'])
+                elif op in ('assign-values', 'assign-dt', 'assign-npts'):
+                    flags[st['who']].add('assign')
+                    if op == 'assign-values':
+                        v = np.array(st['values'], dtype=float)
+                        v = v.tolist() if st['container'] == 'list' else tuple(v.tolist()) if st['container'] == 'tuple' else v
+                        name = 'values'
+                    else:
+                        v, name = st['value'], op.split('-')[1]
+                    try:
+                        setattr(o, name, v)
+                        ctx.observe('protocol: assignment to .%s accepted or ignored' % name)
+                    except Exception:
+                        ctx.observe('protocol: assignment to .%s refused' % name)
+                elif op == 'raise-add_series':
+                    flags[st['who']].add('raise')
+                    ser = np.full(max(0, st['len']), 0.25)
+                    _swallow(o.add_series, ser.tolist() if st['container'] == 'list' else ser)
+                elif op == 'raise-add_signal':
+                    flags[st['who']].add('raise')
+                    n_ = len(o.values)
+                    other = {'other-dt': lambda: eqsig.AccSignal(np.ones(n_), float(o.dt) * 2.0),
+                             'other-length': lambda: eqsig.AccSignal(np.ones(n_ + 5), o.dt),
+                             'not-a-signal': lambda: np.ones(n_)}[st['mode']]
+                    _swallow(lambda: o.add_signal(other()))
+                elif op == 'bad-target':
+                    flags[st['who']].add('raise')
+                    _swallow(getattr(eqsig, st['fn']), o, st['target'], even=st['even'])
+                elif op == 'raise-spectrum':
+                    flags[st['who']].add('raise')
+                    kw = {'empty': dict(response_times=[]), 'negative-ratio': dict(response_times=np.array([0.05, 1.0]), min_dt_ratio=-4.0),
+                          'text': dict(response_times='abc')}[st['mode']]
+                    _swallow(o.gen_response_spectrum, **kw)
+    finally:
+        SCEN['spec'] = None
+
+
+def _protocol_call(eqsig, ctx, spec, i, st, o, flags):
+    f = getattr(eqsig, st['fn'])
+    target, even = st['target'], st['even']
+    try:
+        vals0 = np.array(o.values, copy=True)
+        dtv = o.dt
+    except Exception:
+        ctx.observe('protocol: object has no readable values / dt (call skipped)')
+        return
+    if st['style'] == 0:
+        r = _swallow(f, o, target, even)
+    elif st['style'] == 1:
+        r = _swallow(f, o, target_dt=target, even=even)
+    else:
+        r = _swallow(f, asig=o, target_dt=target, even=even)
+    ctx.ok('protocol.monitored-call')
+    try:
+        with attach.paused():
+            twin = eqsig.AccSignal(vals0, dtv)
+            rt = _swallow(f, twin, target, even=even)
+    except Exception:
+        ctx.observe('protocol: fresh twin could not be built (relation skipped)')
+        return
+    same = _same_result(r, rt)
+    w = lambda: _wit(st['fn'], _snapshot(vals0), dtv, target, even, step=i, who=st['who'],
+                     got_len=None if r is None else len(r.values), got_dt=None if r is None else r.dt,
+                     twin_len=None if rt is None else len(rt.values), twin_dt=None if rt is None else rt.dt)
+    msg = ('step %d: %s(%s of an AccSignal [%s, cache state %s, %s], target_dt=%r, even=%r) -> %s but a fresh AccSignal with the '
+           'same values (n=%d) and dt=%r gives %s' % (
+               i, st['fn'], st['who'], spec['proto'], spec['warm'], spec['order'], target, even,
+               'raised' if r is None else '(len %d, dt %r)' % (len(r.values), r.dt), len(vals0), dtv,
+               'raises' if rt is None else '(len %d, dt %r)' % (len(rt.values), rt.dt)))
+    ctx.check(same, P_TWIN, w, msg)
+    if 'assign' in flags:
+        ctx.check(same, P_ASSIGN, w, 'after an assignment through a public attribute name: ' + msg)
+    if 'raise' in flags:
+        ctx.check(same, P_RAISE, w, 'after an operation that raised (or a non-finite record in between): ' + msg)
+
+
+def drive_protocol(eqsig, ctx, rng, idx=None):
+    combos = [(a, b, c) for a in WARM for b in PROTOS for c in ORDERS]
+    warm, proto, order = combos[idx % len(combos)] if idx is not None else combos[int(rng.integers(len(combos)))]
+    spec = protocol_spec(rng, warm, proto, order)
+    ctx.case(core.digest(spec), nontrivial=True, cls='protocol/%s/%s/%s' % (proto, warm, order),
+             sample={'fn': 'protocol scenario', 'proto': proto, 'warm': warm, 'order': order, 'n': len(spec['values']),
+                     'dt': spec['dt'], 'ops': [t['op'] for t in spec['steps']], 'head': spec['values'][:6]})
+    exec_protocol(eqsig, ctx, spec)
 
 
 def run_shard(ctx):
@@ -1314,21 +1761,52 @@ def run_shard(ctx):
         c += 4 - c % 4                                       # array mode
         drive_interp(eqsig, ctx, rng, dt, target, fam + ('/long' if r >= 2 else '/past-2**16'), n,
                      bool(rng.random() < 0.5), c)
-    # a few calls outside the quantifier (target > duration/2): counted by the monitors, never judged
+    # ends of the admissible range: target at / within 1e-3 of half the duration, 3..6-sample records, largest factors
+    edges_fourier = []
+    for r in range(40 if quick else 800):
+        dt, target, n, fam = edge_case(rng)
+        if not O.in_domain(n, dt, target):
+            ctx.observe('driver: edge case outside the quantifier (skipped)')
+            continue
+        for even in (True, False):
+            c += 1
+            drive_interp(eqsig, ctx, rng, dt, target, fam, n, even, c)
+            ctx.ok('edge.monitored-call')
+        if fam in ('edge/three-samples', 'edge/shortest-refined', 'edge/target-at-half-duration') and n * max(1.0, dt / target) < 4000:
+            edges_fourier.append((dt, target, fam, n))
+    # silent (all-zero) and strictly one-signed records in every container form, array- and object-level
+    for form in (None, 'list', 'tuple', 'list-int', 'f32', 'i16', 'readonly', 'view-stride2'):
+        for r in range(2 if quick else 20):
+            dt, target, fam = random_pair(rng, max_ratio=30.0)
+            n = lengths(rng, dt, target, 1, span=80)[0]
+            for even in (True, False):
+                c += 1
+                drive_interp(eqsig, ctx, rng, dt, target, fam + '/silent-or-one-signed', n, even, c, form=form,
+                             rec=('silent' if r % 2 == 0 else 'one-sided'))
+                ctx.ok('silent-or-one-signed.monitored-call')
+    # a few calls outside the quantifier (target > duration/2): counted by the monitors, never judged (purity is)
     for r in range(5):
         dt, target, fam = random_pair(rng)
         nmin = n_min(dt, target)
         if nmin - 2 >= 2:
             _swallow(eqsig.interp_array_to_approx_dt, rng.normal(size=nmin - 2), dt, target_dt=target, even=False)
+    # inputs the library rejects or that lie outside the quantifier: non-finite samples, too short, unusable target / step
+    for r in range(50 if quick else 1000):
+        drive_rejected(eqsig, ctx, rng)
     # ---------------------------------------------------------------- Fourier: matrix + random
     mat = fourier_matrix()
     for i in core.split_range(len(mat), ctx.shard, ctx.nshards):
         dt, target, fam, N = mat[i]
         if not O.in_domain(N, dt, target):
             continue
+        extra = (('one-signed',) if i % 3 == 0 else ()) + (('silent',) if i % 7 == 0 else ())
         for even in (True, False):
-            for kmode in (('top', 'low') if quick else ('top', 'low', 'top-only', 'top')):
+            for kmode in (('top', 'low') if quick else ('top', 'low', 'top-only', 'top')) + extra:
                 drive_fourier(eqsig, ctx, rng, dt, target, fam, N, even, kmode)
+    for (dt, target, fam, N) in edges_fourier:
+        for even in (True, False):
+            drive_fourier(eqsig, ctx, rng, dt, target, fam, N, even)
+            ctx.ok('edge.monitored-call')
     n_four = (1400 if quick else 50000) // ctx.nshards + 1
     done = 0
     tries = 0
@@ -1357,8 +1835,12 @@ def run_shard(ctx):
     # ---------------------------------------------------------------- same-object histories, process-wide state
     for r in range(25 if quick else 500):
         drive_history(eqsig, ctx, rng)
-    for r in range(60 if quick else 1500):
+    for r in range(130 if quick else 3200):
         drive_back_to_back(eqsig, ctx, rng, pairs)
+    # object protocols x cache states x order (enumerated round robin over the shards), assignments, operations that raise
+    n_combo = len(WARM) * len(PROTOS) * len(ORDERS)
+    for j in range(14 if quick else 280):
+        drive_protocol(eqsig, ctx, rng, idx=(ctx.shard + j * ctx.nshards) if j < (n_combo + ctx.nshards - 1) // ctx.nshards * 2 else None)
     ctx.note('monitored_calls', dict(attach.CALLS))
 
 
@@ -1390,17 +1872,20 @@ def replay(w):
     fn = w.get('fn')
     f = {'interp_to_approx_dt': eqsig.interp_to_approx_dt, 'resample_to_approx_dt': eqsig.resample_to_approx_dt}.get(fn)
 
-    def run(v):
+    def run(v, dt=dt, target=target, even=even):
         if f is None:
             r = _swallow(eqsig.interp_array_to_approx_dt, v, dt, target_dt=target, even=even)
             return None if r is None else (r[0], r[1])
         r = _swallow(f, eqsig.AccSignal(v, dt), target, even=even)
         return None if r is None else (r.values, r.dt)
-    if w.get('scenario') == 'back-to-back':
+    if w.get('scenario') == 'protocol':
+        exec_protocol(eqsig, ctx, w['spec'])
+    elif w.get('scenario') == 'back-to-back':
         r1 = run(values)
         if r1 is not None:
             keep = (np.array(r1[0], copy=True), r1[1])
-            r2 = run(np.asarray(w['second_values']))
+            r2 = run(np.asarray(w['second_values']), w.get('second_dt', dt), w.get('second_target_dt', target),
+                     w.get('second_even', even))
             ok1 = r1[0].tobytes() == keep[0].tobytes() and r1[1] == keep[1] and \
                 not (r2 is not None and np.shares_memory(r1[0], r2[0]))
             ctx.check(ok1, 'state.first-result-intact-after-second-call', w, 'first result changed after the second call')
